@@ -11,6 +11,8 @@
 //!   U<name>          release <name> if parked
 //!   J<name>          join <name> and report its result
 //!   Q                wait for background work to quiesce (the background thread is named `bg`)
+//!   K                crash image: a copy of the file system as it is now is opened as a database
+//!                    and scanned
 use std::collections::HashMap;
 use std::sync::{Arc, Condvar, Mutex};
 use std::time::{Duration, Instant};
@@ -247,6 +249,13 @@ pub fn run_sched(line: &str) -> String {
                 if st.parked.contains_key(body) {
                     st.released.insert(body.to_string(), true);
                     ctl.cv.notify_all();
+                    // wait until the thread has actually left the scheduling point (a following V
+                    // must not see the old entry)
+                    let deadline = Instant::now() + Duration::from_secs(2);
+                    while st.parked.contains_key(body) && Instant::now() < deadline {
+                        let (g, _) = ctl.cv.wait_timeout(st, Duration::from_millis(50)).unwrap();
+                        st = g;
+                    }
                     out.push("ok".to_string());
                 } else {
                     st.armed.remove(body);
@@ -271,6 +280,25 @@ pub fn run_sched(line: &str) -> String {
                 }
             },
             b'Q' => out.push(if quiesce(&db) { "ok".to_string() } else { "not-quiescent".to_string() }),
+            b'K' => {
+                // crash image: what is in the file system right now is opened as a database of
+                // its own and scanned (the running database is not disturbed)
+                let image = sim.snapshot();
+                let res = std::panic::catch_unwind(std::panic::AssertUnwindSafe(|| {
+                    match DB::open(make_options(&image, cfg)) {
+                        Err(e) => format!("open-{}", err_class(&e)),
+                        Ok(d2) => {
+                            let empty: Mutex<Vec<Option<Snapshot>>> = Mutex::new(vec![]);
+                            let r = exec_shared(&d2, &empty, "A");
+                            quiesce(&d2);
+                            drop(d2);
+                            r
+                        }
+                    }
+                }))
+                .unwrap_or_else(|_| "panic".to_string());
+                out.push(res);
+            }
             _ => panic!("bad step {}", step),
         }
     }
